@@ -190,6 +190,16 @@ func (bSchema *BlockSchema) Validate() error {
 		}
 	}
 
+	for key, depBody := range bSchema.DependentBody {
+		if depBody == nil {
+			continue
+		}
+		err := depBody.Validate()
+		if err != nil {
+			errs = multierror.Append(errs, fmt.Errorf("DependentBody[%s]: %w", key, err))
+		}
+	}
+
 	if errs != nil && len(errs.Errors) == 1 {
 		return errs.Errors[0]
 	}
